@@ -1290,6 +1290,11 @@ class FuncTranslator:
                 # not a multiple of the element size is legal; copy bytes in that case instead of asserting the translator assumption
                 fn = 'll_memmove' if kind == 'memmove' else 'll_memcpy'
                 out.append('if ((%s) %% %d != 0) { %s((uint8_t*)%s, (uint8_t*)%s, %s); } else' % (V_(n), sz, fn, V_(d), V_(args[1]), V_(n)))
+            elif kind != 'memset' and isinstance(r, TStruct):
+                # struct/union element (e.g. the 16-byte SSO buffer union of std::string, copied with length size()+1 by the move constructor):
+                # a length that is not a multiple of the element size is a plain byte copy (previously a failing translator check)
+                fn = 'll_memmove' if kind == 'memmove' else 'll_memcpy'
+                out.append('if ((%s) %% %d != 0) { %s((uint8_t*)%s, (uint8_t*)%s, %s); } else' % (V_(n), sz, fn, V_(d), V_(args[1]), V_(n)))
             else:
                 out.append('VERIF_XLATE_CHECK((%s) %% %d == 0);' % (V_(n), sz))
             if kind == 'memset':
@@ -1468,13 +1473,15 @@ static inline __int128 SDIV128(__int128 a, __int128 b) { return a / b; }
 static inline __int128 SREM128(__int128 a, __int128 b) { return a % b; }
 uint8_t* ll_memcpy(uint8_t*, uint8_t*, uint64_t); uint8_t* ll_memmove(uint8_t*, uint8_t*, uint64_t); uint8_t* ll_memset(uint8_t*, uint32_t, uint64_t);
 static inline void* verif_alloc_check(void* p) { __CPROVER_assume(p != 0); return p; }
-/* 128-bit multiplication (FeeFrac::Mul and friends). Default: the plain product. Opt-in -DVERIF_MUL128_NARROW (harnesses whose operands are small by construction):
-   both operands are ASSERTED to be sign-extended 16-bit values and the product is computed as int16 x int16 -> int32, sign-extended. A 128x128 multiplier whose operand
-   bits are symbolic sign-extension copies costs ~80k clauses per product; sound because a feasible wider operand fails the assertion. */
+/* 128-bit multiplication (FeeFrac::Mul and friends). Default: the plain product. Opt-in -DVERIF_MUL128_NARROW=k (harnesses whose operands are small by construction):
+   both operands are ASSERTED to have magnitude < 2^k (k <= 31) and the product is formed from the k-bit magnitudes and the signs. A 128x128 multiplier whose operand
+   bits are symbolic sign-extension copies costs ~80k clauses per product, a k x k one almost nothing; sound because a feasible wider operand fails the assertion. */
 #if defined(VERIF_MUL128_NARROW) && defined(__CPROVER__)
-#define VERIF_MUL128(a, b) ({ unsigned __int128 a_ = (a), b_ = (b); int ok_ = (a_ == (unsigned __int128)(__int128)(int16_t)a_) && (b_ == (unsigned __int128)(__int128)(int16_t)b_); \
+#define VERIF_MUL128(a, b) ({ __int128 a_ = (__int128)(a), b_ = (__int128)(b); const __int128 lim_ = (__int128)1 << VERIF_MUL128_NARROW; \
+  int ok_ = a_ > -lim_ && a_ < lim_ && b_ > -lim_ && b_ < lim_; \
   __CPROVER_assert(ok_, "128-bit multiplication operands within the harness's declared VERIF_MUL128_NARROW width"); __CPROVER_assume(ok_); \
-  (unsigned __int128)(__int128)((int32_t)(int16_t)a_ * (int32_t)(int16_t)b_); })
+  uint64_t ma_ = (uint64_t)(a_ < 0 ? -a_ : a_) & (((uint64_t)1 << VERIF_MUL128_NARROW) - 1), mb_ = (uint64_t)(b_ < 0 ? -b_ : b_) & (((uint64_t)1 << VERIF_MUL128_NARROW) - 1); \
+  uint64_t p_ = ma_ * mb_; (unsigned __int128)(((a_ < 0) != (b_ < 0)) ? -(__int128)p_ : (__int128)p_); })
 #else
 #define VERIF_MUL128(a, b) ((unsigned __int128)((unsigned __int128)(a) * (unsigned __int128)(b)))
 #endif
